@@ -122,7 +122,12 @@ def validate_row_table(ctx, rule, aspects=("location",)):
 
 # =============================================================================== Reader.rows and the functions on top
 def _reader_world(model, ch, entry, checks_end=(CHECK_OK,), n_rows_options=(0, 1, 2, 3), with_faults=True,
-                  modes=("raise", "yield", "continue")):
+                  modes=("raise", "yield", "continue"), numeric="order"):
+    """
+    numeric="order": the header count and the limit are order symbols (all integers at once; only comparisons allowed).
+    numeric="regions": used when the code does arithmetic on them - every value 0..rows+2 as a region representative;
+    values beyond the number of rows plus the largest constant added behave like the largest representative.
+    """
     rows_holder = {}
 
     @stub
@@ -154,14 +159,21 @@ def _reader_world(model, ch, entry, checks_end=(CHECK_OK,), n_rows_options=(0, 1
     interp = Interp(model, ch, stubs=stubs)
     world = World(model, interp, ch)
     checks = [world.recording_check(0, end_outcomes=checks_end), world.recording_check(1, end_outcomes=checks_end)]
-    header = Sym("h", integer=True)
     limit_kind = ch.choose("limit", ["none", "n"])
-    limit = None if limit_kind == "none" else Sym("n", integer=True)
-    # API contract: header >= 0 (DataFormat.header setter), limit >= 0 (asserted by Reader / rows / validate)
-    interp.order.declare(("s", "h"), ">=", ("c", 0))
-    interp.order.declare(("s", "n"), ">=", ("c", 0))
     mode = ch.choose("mode", list(modes)) if entry in ("Reader.rows", "rows()", "validate_rows") else "raise"
     n_rows = ch.choose("raw rows", list(n_rows_options))
+    if numeric == "order":
+        header = Sym("h", integer=True)
+        limit = None if limit_kind == "none" else Sym("n", integer=True)
+        # API contract: header >= 0 (DataFormat.header setter), limit >= 0 (asserted by Reader / rows / validate)
+        interp.order.declare(("s", "h"), ">=", ("c", 0))
+        interp.order.declare(("s", "n"), ">=", ("c", 0))
+    else:
+        from ..absint import RInt
+
+        top = max(n_rows_options) + 2
+        header = RInt(ch.choose("h", list(range(0, top + 1))))
+        limit = None if limit_kind == "none" else RInt(ch.choose("n", list(range(0, top + 1))))
     fault_at = ch.choose("container fault", [None] + list(range(n_rows + 1))) if with_faults else None
     rows = [world.row(index, 2) for index in range(n_rows)]
     rows_holder.update({"rows": rows, "fault_at": fault_at, "ids": {id(row): index for index, row in enumerate(rows)}, "errors": {}})
@@ -170,10 +182,10 @@ def _reader_world(model, ch, entry, checks_end=(CHECK_OK,), n_rows_options=(0, 1
             "fault_at": fault_at, "holder": rows_holder, "n_rows": n_rows}
 
 
-def reader_rows_run(model, ch, entry="Reader.rows", max_rows=3):
+def reader_rows_run(model, ch, entry="Reader.rows", max_rows=3, numeric="order"):
     """entry: "Reader.rows" (generator of a Reader), "rows()" (validio.rows), "validate()" (validio.validate),
     "validate_rows" (Reader.validate_rows inside with, as the command line does)."""
-    run = _reader_world(model, ch, entry, n_rows_options=tuple(range(0, max_rows + 1)))
+    run = _reader_world(model, ch, entry, n_rows_options=tuple(range(0, max_rows + 1)), numeric=numeric)
     interp, cid = run["interp"], run["cid"]
     stream = run["world"].stream()
     items = []
@@ -207,7 +219,9 @@ def reader_rows_run(model, ch, entry="Reader.rows", max_rows=3):
 
 
 def _sign_const_sym(interp, constant, symbol):
-    return interp.order.sign(("c", constant), ("s", symbol.key()))
+    if isinstance(symbol, Sym):
+        return interp.order.sign(("c", constant), ("s", symbol.key()))
+    return (constant > symbol.value) - (constant < symbol.value)  # region representative
 
 
 def reader_rows_oracle(run, aspects):
@@ -226,7 +240,7 @@ def reader_rows_oracle(run, aspects):
     try:
         never_started = (
             entry == "validate()" and run["limit"] is not None
-            and interp.order.sign(("c", 0), ("s", run["limit"].key())) >= 0
+            and _sign_const_sym(interp, 0, run["limit"]) >= 0
         )
         if never_started:
             # validate(..., validate_until=0) never starts reading: nothing but the end of the run happens
@@ -253,7 +267,7 @@ def reader_rows_oracle(run, aspects):
             index = k - 1
             if entry == "validate()" and run["limit"] is not None:
                 # validate() stops pulling once `limit` rows were returned by rows()
-                if interp.order.sign(("c", yielded_data_rows), ("s", run["limit"].key())) >= 0:
+                if _sign_const_sym(interp, yielded_data_rows, run["limit"]) >= 0:
                     stopped = "limit"
                     break
             if run["fault_at"] == index:
@@ -345,6 +359,8 @@ def _expect_close(cursor, entry, aspects=("reset",)):
 def _rows_key(run):
     interp = run["interp"]
     facts = ", ".join("%s%s%s" % (a[1], rel, b[1]) for a, rel, b in interp.order.facts)
+    if not isinstance(run["header"], Sym):
+        facts = "h=%d%s" % (run["header"].value, "" if run["limit"] is None else ", n=%d" % run["limit"].value)
     calls = ",".join("%s:%s" % (event[1], event[-1]) for event in interp.events if event[0] == "validate_row")
     return "%s mode=%s limit=%s rows=%d fault=%s order[%s] validate_row[%s]" % (
         run["entry"], run["mode"], "none" if run["limit"] is None else "n", run["n_rows"], run["fault_at"], facts, calls)
@@ -353,13 +369,25 @@ def _rows_key(run):
 def reader_rows_table(ctx, rule, aspects, entry="Reader.rows"):
     max_rows = 4 if ctx.thorough else 3
 
+    numeric = ["order"]
+
     def cell(ch):
-        run = reader_rows_run(ctx.model, ch, entry, max_rows)
+        run = reader_rows_run(ctx.model, ch, entry, max_rows, numeric[0])
         return (_rows_key(run), reader_rows_oracle(run, aspects), "conforms")
 
     qualname = {"Reader.rows": READER + ".rows", "rows()": "cutplace.validio.rows", "validate()": "cutplace.validio.validate",
                 "validate_rows": READER + ".validate_rows"}[entry]
-    return decide(ctx, rule, "%s[%s]" % (entry, "+".join(sorted(aspects))), qualname, cell, min_cells=40)
+    table = "%s[%s]" % (entry, "+".join(sorted(aspects)))
+    try:
+        return decide(ctx, rule, table, qualname, cell, min_cells=40)
+    except AnalysisError as error:
+        if "on order symbol" not in str(error):
+            raise
+        # the code computes with the header count or the limit: decide on region representatives instead
+        numeric[0] = "regions"
+        ctx.res.note("%s: %s does arithmetic on the header count / limit; decided on the values 0..%d instead of order symbols"
+                     % (rule, table, max_rows + 2))
+        return decide(ctx, rule, table, qualname, cell, min_cells=40)
 
 
 # =============================================================================== close
